@@ -19,7 +19,7 @@ THEOREMS = ['C01_order', 'C01_invalid', 'C01_payload', 'C01_unknown_event']
 
 
 def gen(rng, i, tier):
-    c = flat.gen_case(rng, malformed=(i % 7 == 6), p_build=0.3)
+    c = flat.gen_case(rng, malformed=(i % 7 == 6), p_build=0.3, p_self=0.15)
     if i % 4 == 1:
         # may_<event>() calls interleaved with the triggers: they must not influence what later triggers do
         hist = []
@@ -192,7 +192,7 @@ def extra_checks(tier, seed):
     return out
 
 
-def late_transitions_stream(tier, seed):
+def late_transitions_stream(tier, seed, may=False, tag='C01l'):
     """machines reconfigured after events have been processed: the last transitions of some events are added by
     add_transition only after the k-th call.  Model: the flat engine on the reduced machine for the first k calls, then
     on the complete machine started in the state reached (callback behaviour by callback id, so positions do not
@@ -203,8 +203,12 @@ def late_transitions_stream(tier, seed):
     n = 300 if tier == 'quick' else 8000
     cases = []
     for i in range(n):
-        rng = random.Random('C01l-%d-%d' % (seed, i))
+        rng = random.Random('%s-%d-%d' % (tag, seed, i))
         c = flat.gen_case(rng, malformed=False, hist_len=rng.randint(3, 8), p_unknown=0.0)
+        if may:
+            # may_<event> asked before every trigger - in particular in states that were already asked about before
+            # the machine was reconfigured
+            c['history'] = [x for (k, e, a) in c['history'] for x in ((1, e, 300 + a), (0, e, a))]
         c['env'] = dict(default=c['env']['default'], bypos={}, bycb={k: (r[0], None, []) for k, r in c['env']['bycb'].items()})
         c['cls'] = ['Machine', 'LockedMachine', 'GraphMachine', 'HierarchicalMachine'][i % 4]
         late = {}
